@@ -25,7 +25,8 @@ LEVEL = 'exploration'
 RULE = ('Hypothesis builtin sweep: every name in the live FUNCTIONS table called with 0-4 arguments drawn from per-builtin '
         'shape tables (4/5) or an untyped hostile pool (1/5): scalars, nested lists/tuples/dicts, lambdas, builtins as '
         'values, attribute-/format-/path-like strings; one argument may itself be another builtin call; embedded in 10 '
-        'program forms (store, index, call the result, pipe, map body...). Plus typed programs. Host names hold plain data '
+        'program forms (store, index, call the result, pipe, map body...); 1 in 12 evaluated on a fresh worker thread with '
+        'the parser built on the main thread. Plus typed programs. Host names hold plain data '
         'only. Oracle: every node result, the final result and final names contain only None/bool/int/float/Decimal/str/'
         'list/tuple/dict/slice, table entries and lambdas created in the run; no flagged audit event during eval. '
         'Non-trivial: some builtin returned normally having received a non-scalar, callable or hostile-string argument; '
@@ -152,20 +153,33 @@ def run_source(src, names, case):
     AUDIT.flagged.clear()
     outcome = 'value'
     res = None
-    with mon.on():
+    box = {'outcome': 'value', 'res': None}
+
+    def do_eval():
         AUDIT.armed = True
         try:
-            res = parser().eval(src, names, max_ops_evaluated=20000)
+            box['res'] = parser().eval(src, names, max_ops_evaluated=20000)
         except ParserError:
-            outcome = 'lang'
+            box['outcome'] = 'lang'
         except Veto:
-            outcome = 'veto'
+            box['outcome'] = 'veto'
         except RecursionError:
-            outcome = 'recursion'
+            box['outcome'] = 'recursion'
         except Exception as e:  # noqa  any exception is fine for this property
-            outcome = 'other'
+            box['outcome'] = 'other'
         finally:
             AUDIT.armed = False
+
+    with mon.on():
+        if case.get('via') == 'thread':
+            # the host evaluates on a worker thread with the parser it built on its main thread
+            import threading
+            th = threading.Thread(target=do_eval)
+            th.start()
+            th.join()
+        else:
+            do_eval()
+    outcome, res = box['outcome'], box['res']
     for ev, detail in AUDIT.flagged:
         note('audit:' + ev, f'audit event {ev} {detail} during eval')
     AUDIT.flagged.clear()
@@ -275,7 +289,10 @@ def sweep_cases(draw, table):
     name = a.pick(table)
     call, interesting = build_call(a, name, names)
     form = a.pick(FORMS) if a.n(3) else '{c}'
-    return {'src': form.format(c=call), 'names': core.enc(names), 'builtin': name, 'interesting': interesting}
+    case = {'src': form.format(c=call), 'names': core.enc(names), 'builtin': name, 'interesting': interesting}
+    if a.n(12) == 0:
+        case['via'] = 'thread'
+    return case
 
 
 def jobs(tier, seed):
@@ -316,7 +333,7 @@ def run_job(job):
                 return hyp.Result(fails, info['outcome'] == 'value', ['sweep:builtin-as-value', 'outcome:' + info['outcome']],
                                   key=case['src'] + repr(case['names']),
                                   sample={'src': case['src'], 'names': case['names'], 'outcome': info['outcome']})
-            return hyp.Result(fails, ok and case['interesting'], ['sweep', 'outcome:' + info['outcome']],
+            return hyp.Result(fails, ok and case['interesting'], ['sweep', 'outcome:' + info['outcome']] + (['host:worker-thread'] if case.get('via') else []),
                               key=case['src'] + repr(case['names']),
                               sample={'src': case['src'], 'names': case['names'], 'outcome': info['outcome']})
 
